@@ -127,7 +127,10 @@ func Build(thorough bool) *World {
 	tS2 := Spend(w.KB, []labnet.Out{{Tx: tS, Idx: 0}}, []*types.TxOutput{btm(chainlab.UAmount-3*labnet.Fee, w.KA.Prog)})
 	w.a2 = cw.AddBlock(a1, "a2", labnet.BlockOpt{Txs: []*types.Tx{tS, tS2}})
 	tVeto := Spend(w.KA, []labnet.Out{{Tx: tV, Idx: 0}}, []*types.TxOutput{btm(100000000-labnet.Fee, w.KA.Prog)})
-	a3 := cw.AddBlock(w.a2, "a3", labnet.BlockOpt{Txs: []*types.Tx{tVeto}})
+	// a spend of a wallet-owned output that pays nothing back to the wallet (send-everything): when its block is
+	// detached the only trace of the transaction in the wallet is the output it had spent
+	tOut := Spend(w.KA, []labnet.Out{{Tx: tS2, Idx: 0}}, []*types.TxOutput{btm(chainlab.UAmount-4*labnet.Fee, labnet.Prog(0x7c))})
+	a3 := cw.AddBlock(w.a2, "a3", labnet.BlockOpt{Txs: []*types.Tx{tVeto, tOut}})
 	a4 := cw.AddBlock(a3, "a4", labnet.BlockOpt{})
 	cb := P.Reward[11]
 	tC := Spend(w.KA, []labnet.Out{cb}, []*types.TxOutput{btm(cb.Amount()-labnet.Fee, w.KB.Prog)})
